@@ -325,7 +325,7 @@ func (_this *cteListener) ExitValueFloat(ctx *parser.ValueFloatContext) {
 
 	// compact_float silently wraps coefficients that need more than 64 bits, so
 	// only let it parse literals whose coefficient is guaranteed to fit.
-	if countDecimalCoefficientDigits(strNoSign) <= maxDFloatCoefficientDigits {
+	if countDecimalCoefficientDigits(strNoSign) <= maxDFloatCoefficientDigits && decimalExponentFits(strNoSign) {
 		if value, err := compact_float.DFloatFromString(str); err == nil {
 			_this.eventReceiver.OnDecimalFloat(value)
 			return
@@ -349,6 +349,28 @@ func (_this *cteListener) ExitValueFloat(ctx *parser.ValueFloatContext) {
 		decimal.Negative = !decimal.Negative
 	}
 	_this.eventReceiver.OnBigDecimalFloat(decimal)
+}
+
+// compact_float computes the stored exponent (written exponent minus the
+// number of fraction digits) in 32 bits without a range check, so a literal
+// at the bottom of the range wraps around (1.55e-2147483647 became
+// 1.55e+2147483649, 1.55e-2147483646 a NaN). Only let it parse literals whose
+// stored exponent fits; the others go to the big decimal path, which checks.
+func decimalExponentFits(str string) bool {
+	mantissa := str
+	exponent := int64(0)
+	if i := strings.IndexAny(str, "eE"); i >= 0 {
+		e, err := strconv.ParseInt(str[i+1:], 10, 40)
+		if err != nil {
+			return false
+		}
+		exponent = e
+		mantissa = str[:i]
+	}
+	if i := strings.IndexByte(mantissa, '.'); i >= 0 {
+		exponent -= int64(len(mantissa) - i - 1)
+	}
+	return exponent > math.MinInt32 && exponent <= math.MaxInt32
 }
 
 // Parse an unsigned decimal float literal (digits[.digits][e[+-]digits]) into
